@@ -144,6 +144,10 @@ def _impl(tier, seed, search):
         if ok:
             L.close('xyt-roundtrip', b.xyt2tr(x), T2, TOL, max(1.0, float(np.max(np.abs(xyt[:2])))), dict(xyt=xyt))
             L.check('xyt-range', abs(x[2]) <= PI + 1e-12, dict(xyt=xyt), 'planar angle out of range')
+        ok, xd = L.noraise('tr2xyt(deg)', lambda: b.tr2xyt(T2, unit='deg'), dict(T=T2), "tr2xyt(unit='deg')")
+        if ok:
+            L.close('xyt-roundtrip(deg)', b.xyt2tr(xd, unit='deg'), T2, TOL, max(1.0, float(np.max(np.abs(xyt[:2])))), dict(xyt=xyt), what="xyt2tr(tr2xyt(T, 'deg'), 'deg') does not reproduce T")
+            L.close('xyt(deg):translation', np.asarray(xd, float)[:2], T2[:2, 2], 1e-12, max(1.0, float(np.max(np.abs(xyt[:2])))), dict(xyt=xyt), what="tr2xyt(unit='deg') changes the translation", sig='xyt-roundtrip(deg)')
         ok, x = L.noraise('SE2.xyt', lambda: SE2(T2, check=False).xyt(), dict(T=T2), 'SE2.xyt()')
         if ok: L.close('SE2.xyt-roundtrip', b.xyt2tr(x), T2, TOL, max(1.0, float(np.max(np.abs(xyt[:2])))), dict(xyt=xyt))
         ok, x = L.noraise('SO2.theta', lambda: (SO2(T2[:2, :2], check=False).theta(), SO2(T2[:2, :2], check=False).theta(unit='deg')), dict(T=T2), 'SO2.theta()')
